@@ -36,7 +36,21 @@ func genValidHistory(t *rapid.T, o gwOpts, maxPayload int) []PktSpec {
 	}
 	h = append(h, PktSpec{K: "tc", Cookie: cookie}, PktSpec{K: "ta"}, PktSpec{K: "cc", Host: "A"})
 	n := rapid.IntRange(0, 6).Draw(t, "ndata")
+	bulk := rapid.IntRange(0, 4).Draw(t, "bulk") == 0 // many large data packets: more than one maximal packet's worth of bytes in flight
+	if bulk {
+		n = rapid.IntRange(6, 14).Draw(t, "nbulk")
+	}
 	for i := 0; i < n; i++ {
+		if bulk {
+			sz := rapid.SampledFrom([]int{4000, 8192, 16384, 32768, 65535}).Draw(t, "bulksz")
+			seed := rapid.Byte().Draw(t, "bseed")
+			b := make([]byte, sz)
+			for j := range b {
+				b[j] = seed + byte(j) + byte(j>>8)*3
+			}
+			h = append(h, PktSpec{K: "data", Payload: b})
+			continue
+		}
 		switch rapid.IntRange(0, 7).Draw(t, "op") {
 		case 0:
 			h = append(h, PktSpec{K: "ka"})
